@@ -391,6 +391,8 @@ impl Transform {
     /// # Arguments
     /// `expr` - The expression to transform
     pub fn transform(&self, expr: &Cell) -> Result<Cell, Error> {
+        #[cfg(marwood_verif)]
+        let _verif_depth = crate::vm::verif::depth::enter("macro", "macro_transform");
         let invalid_syntax = || Err(InvalidSyntax(format!("{:#}", self.keyword)));
         if !expr.is_pair() {
             invalid_syntax()?;
@@ -426,6 +428,8 @@ impl Transform {
         expr: &'a Cell,
         env: &mut PatternEnvironment<'a>,
     ) -> bool {
+        #[cfg(marwood_verif)]
+        let _verif_depth = crate::vm::verif::depth::enter("macro", "pattern_match");
         // expr and pattern must either both be lists or improper lists
         if (pattern.is_pair() || pattern.is_nil()) && !(expr.is_pair() || expr.is_nil()) {
             return false;
@@ -533,6 +537,8 @@ impl Transform {
         pattern: &Pattern,
         env: &mut PatternEnvironment,
     ) -> Option<Cell> {
+        #[cfg(marwood_verif)]
+        let _verif_depth = crate::vm::verif::depth::enter("macro", "expand");
         match template {
             Cell::Symbol(_) => {
                 if pattern.is_variable(template) {
